@@ -18,7 +18,7 @@ fn main() {
     let args = run::parse_args();
     match args.mode.clone() {
         Mode::Parent => parent(&args),
-        Mode::Child(_) => child(&args),
+        Mode::Child(k) => child(&args, k == "nested"),
         Mode::Replay(p) => run::replay(ID, &p),
     }
 }
@@ -28,6 +28,11 @@ fn parent(args: &Args) {
     let mut out = Out::new();
     let n = args.get_u64("shards", args.tier.pick(80, 2000));
     let ends = run::run_children(args, &ChildSpec::new("hist", n).arg("hist", args.get_u64("hist", 300)).timeout(600), &mut out);
+    run::classify_ends(&ends, &mut out, true);
+    // two registries alternating as the default of the same threads (nested `with_default`),
+    // each operation touching only the registry that is the default at that moment
+    let n2 = args.get_u64("nshards", args.tier.pick(32, 800));
+    let ends = run::run_children(args, &ChildSpec::new("nested", n2).arg("hist", args.get_u64("hist", 300)).timeout(600), &mut out);
     run::classify_ends(&ends, &mut out, true);
     let mut extra = Map::new();
     vlib::sanlayer::run_layers(ID, args, &mut out, &mut extra);
@@ -41,7 +46,7 @@ fn parent(args: &Args) {
                    evaluations = operations judged; non-trivial = every judged operation; distinct = distinct (operation, has parent, open children (capped), entered count, handle count, duplicate-on-thread-stack, depth, threads) tuples",
             assumptions: vec![
                 "every 'current'-dependent clause is skipped while the model stack of that thread holds a duplicate entry of a span (the property excludes exactly that); the parent observed by layer 0 is then adopted by the model".into(),
-                "all threads keep the owning stack as default (foreign defaults are C05's F2 business)".into(),
+                "in the main class all threads keep the owning stack as default; in the `nested` class two registries alternate as the default of the same threads (nested with_default blocks) but every operation touches only handles, guards and traces of the registry that is the default at that moment and a block exits what it entered before it ends - no step closes a span through another collector (that is C05's F2 business)".into(),
             ],
             min_evals: 100000,
             min_distinct: 150,
@@ -52,7 +57,7 @@ fn parent(args: &Args) {
     );
 }
 
-fn child(args: &Args) {
+fn child(args: &Args, nested: bool) {
     let n = args.get_u64("hist", 300);
     let only = args.get("only").and_then(|s| s.parse::<u64>().ok());
     let mut out = Out::new();
@@ -62,13 +67,16 @@ fn child(args: &Args) {
         if let Some(o) = only {
             if i != o { continue; }
         }
-        let idx = (2u64 << 40) + args.shard * 1_000_000 + i;
+        let idx = ((if nested { 3u64 } else { 2u64 }) << 40) + args.shard * 1_000_000 + i;
         if fresh.remaining(1, 0, vcs::Kind::Span) < 6 || fresh.remaining(3, 1, vcs::Kind::Event) < 6 {
             fresh = Arc::new(Fresh::new());
         }
-        let o = run_history(args.seed, idx, fresh.clone(), Weights { foreign: false, c06: true }, 64);
+        let o = run_history(args.seed, idx, fresh.clone(), Weights { foreign: nested, c06: true, own_only: nested }, 64);
         out.evals += o.trace.len() as u64;
-        out.count("histories", 1);
+        out.count(if nested { "histories_with_two_registries_on_the_same_threads" } else { "histories" }, 1);
+        if o.tainted {
+            out.harness_errors.push(format!("HARNESS: nested-registry history {i} of shard {} ran a foreign-default step", args.shard));
+        }
         for (k, v) in &o.stats { out.count(k, *v); }
         if o.f28 > 0 {
             out.count("f28_on_exit_after_close_callbacks", o.f28);
